@@ -65,6 +65,17 @@ pub fn events_of(d: &tr::Dag, obs: Option<&Obs<Tr>>, outcome: &Outcome, log: &[(
     evs.push(json!({"ev": "Ret", "out": outname, "used": used_coords, "logs": keys}));
     if let Some(o) = obs {
         let ls = |t: &Tr| -> Vec<u32> { leafsets[t.id as usize].xs() };
+        // kinematic arguments (mass of edge e: leaf (1, e); component i of the shift of edge e: leaf (2, 64 + 8 e + i)) that flow
+        // into a returned quantity, as 1-based edge numbers
+        let kin = |ids: &[u32]| -> (Vec<u32>, Vec<u32>) {
+            let mut o = 0u128;
+            for id in ids { o |= leafsets[*id as usize].other; }
+            let ms: Vec<u32> = (0..64).filter(|b| o >> b & 1 == 1).map(|b| b + 1).collect();
+            let mut sh: Vec<u32> = (64..128).filter(|b| o >> b & 1 == 1).map(|b| (b - 64) / 8 + 1).collect();
+            sh.dedup();
+            (ms, sh)
+        };
+        let outev = |name: &str, i: usize, leaves: Vec<u32>, ids: &[u32]| { let (ms, sh) = kin(ids); json!({"ev": "Out", "name": name, "i": i, "leaves": leaves, "masses": ms, "shifts": sh}) };
         if let Some(m) = &o.meta {
             let dd = m.q_vectors.get(0).map(|v| v.len()).unwrap_or(0);
             for (l, q) in m.q_vectors.iter().enumerate() {
@@ -79,22 +90,22 @@ pub fn events_of(d: &tr::Dag, obs: Option<&Obs<Tr>>, outcome: &Outcome, log: &[(
                     evs.push(json!({"ev": "Q", "n": l * dd + i, "trig": trig, "a": a, "b": b, "nleaves": lv.len()}));
                 }
             }
-            evs.push(json!({"ev": "Out", "name": "lambda", "i": 0, "leaves": ls(&m.lambda)}));
+            evs.push(outev("lambda", 0, ls(&m.lambda), &[m.lambda.id]));
             let mut lm = std::collections::BTreeSet::new();
             for r in &m.l_matrix { for t in r { lm.extend(ls(t)); } }
-            evs.push(json!({"ev": "Out", "name": "lmat", "i": 0, "leaves": lm.into_iter().collect::<Vec<_>>()}));
+            evs.push(outev("lmat", 0, lm.into_iter().collect::<Vec<_>>(), &m.l_matrix.iter().flatten().map(|t| t.id).collect::<Vec<_>>()));
             let mut sh = std::collections::BTreeSet::new();
             for r in &m.shift { for t in r { sh.extend(ls(t)); } }
-            evs.push(json!({"ev": "Out", "name": "shift", "i": 0, "leaves": sh.into_iter().collect::<Vec<_>>()}));
+            evs.push(outev("shift", 0, sh.into_iter().collect::<Vec<_>>(), &m.shift.iter().flatten().map(|t| t.id).collect::<Vec<_>>()));
         }
-        evs.push(json!({"ev": "Out", "name": "u", "i": 0, "leaves": ls(&o.u)}));
-        evs.push(json!({"ev": "Out", "name": "v", "i": 0, "leaves": ls(&o.v)}));
-        evs.push(json!({"ev": "Out", "name": "jac", "i": 0, "leaves": ls(&o.jacobian)}));
-        evs.push(json!({"ev": "Out", "name": "utrop", "i": 0, "leaves": ls(&o.u_trop)}));
-        evs.push(json!({"ev": "Out", "name": "vtrop", "i": 0, "leaves": ls(&o.v_trop)}));
+        evs.push(outev("u", 0, ls(&o.u), &[o.u.id]));
+        evs.push(outev("v", 0, ls(&o.v), &[o.v.id]));
+        evs.push(outev("jac", 0, ls(&o.jacobian), &[o.jacobian.id]));
+        evs.push(outev("utrop", 0, ls(&o.u_trop), &[o.u_trop.id]));
+        evs.push(outev("vtrop", 0, ls(&o.v_trop), &[o.v_trop.id]));
         for k in &o.loop_momenta {
             for (i, t) in k.iter().enumerate() {
-                evs.push(json!({"ev": "Out", "name": "mom", "i": i, "leaves": ls(t)}));
+                evs.push(outev("mom", i, ls(t), &[t.id]));
             }
         }
     }
@@ -133,12 +144,19 @@ pub fn events_of(d: &tr::Dag, obs: Option<&Obs<Tr>>, outcome: &Outcome, log: &[(
 pub struct FlowRun {
     pub events: Vec<Value>,
     pub outcome: Outcome,
+    /// how the mass argument of each edge was passed: 0 = None, 1 = Some(0.0), 2 = Some(non-zero)
+    pub mpat: Vec<u8>,
     /// removal order (1-based edges) observed in the repository's debug log on the same point; empty = not observed
     pub order: Vec<usize>,
 }
 
+/// edges (1-based) that carry loop momentum in the routing the harness builds samplers with
+pub fn loop_edges(g: &InstGraph) -> Vec<usize> {
+    cycle_basis(&g.edges).iter().enumerate().filter(|(_, row)| row.iter().any(|&c| c != 0)).map(|(i, _)| i + 1).collect()
+}
+
 /// one traced execution
-pub fn trace_one(s: &dyn DynSampler, g: &InstGraph, x: &[f64], lattice: &[Option<(i64, i64)>], extra: usize, set: &Settings, rng: &mut impl Rng) -> FlowRun {
+pub fn trace_one(s: &dyn DynSampler, g: &InstGraph, x: &[f64], lattice: &[Option<(i64, i64)>], extra: usize, set: &Settings, rng: &mut impl Rng, mpat_in: Option<&[u8]>) -> FlowRun {
     tr::reset();
     let dim = s.dim();
     let mut xs: Vec<Tr> = Vec::with_capacity(dim + extra);
@@ -147,9 +165,15 @@ pub fn trace_one(s: &dyn DynSampler, g: &InstGraph, x: &[f64], lattice: &[Option
         xs.push(Tr::leaf(0, i as u32, v));
     }
     let d = s.d();
+    // the mass argument of an edge the graph does not flag massive may be None, Some(0) or Some(non-zero): the flag shapes the
+    // tropical approximation, the masses of the call are what V is made of
+    let mpat: Vec<u8> = match mpat_in {
+        Some(p) if p.len() == g.ne() => p.to_vec(),
+        _ => (0..g.ne()).map(|e| if g.mass[e] { 2 } else { [0u8, 0, 1, 1, 2][rng.gen_range(0..5)] }).collect(),
+    };
     let ed: EdgeData<Tr> = (0..g.ne())
         .map(|e| {
-            let m = if g.mass[e] { Some(Tr::leaf(1, e as u32, rng.gen_range(0.1..2.0))) } else if rng.gen_bool(0.5) { None } else { Some(Tr::leaf(1, e as u32, 0.0)) };
+            let m = match mpat[e] { 0 => None, 1 => Some(Tr::leaf(1, e as u32, 0.0)), _ => Some(Tr::leaf(1, e as u32, rng.gen_range(0.1..2.0))) };
             let p = (0..d).map(|i| Tr::leaf(2, (64 + e * 8 + i) as u32, rng.gen_range(-2.0..2.0))).collect();
             (m, p)
         })
@@ -178,7 +202,7 @@ pub fn trace_one(s: &dyn DynSampler, g: &InstGraph, x: &[f64], lattice: &[Option
     allowed.extend([dd / 2.0, -(dd / 2.0), dd / 2.0 * nl + dod, -dod, 0.0, 1.0, 2.0, 0.5, 5.0, std::f64::consts::PI, 1.0 - 1.0e-9]);
     if let Some(t) = set.stability { allowed.push(t); }
     let events = events_of(&dag, out.obs.as_ref(), &out.outcome, &out.log, lattice, order.as_deref(), &allowed);
-    FlowRun { events, outcome: out.outcome, order: order.map(|o| o.iter().map(|e| e + 1).collect()).unwrap_or_default() }
+    FlowRun { events, outcome: out.outcome, mpat, order: order.map(|o| o.iter().map(|e| e + 1).collect()).unwrap_or_default() }
 }
 
 pub fn run(lines: &[Value], opts: &FlowOpts, trace_path: &str) -> Summary {
@@ -284,13 +308,15 @@ pub fn run(lines: &[Value], opts: &FlowOpts, trace_path: &str) -> Summary {
                 sm.count("runs_with_underflowing_xi");
             }
             let extra = if r % 2 == 0 { 3 } else { 0 };
-            let fr = trace_one(s.as_ref(), &g, &x, &lat, extra, &set, &mut rng);
+            let fr = trace_one(s.as_ref(), &g, &x, &lat, extra, &set, &mut rng, None);
             run_id += 1;
             sm.evaluations += 1;
             sm.count(&format!("outcome_{}", fr.outcome.name()));
             if e >= 3 { sm.nontrivial += 1; }
             let reset = json!({"ev": "Reset", "run": run_id, "g": inst["g"], "stab": set.stability.is_some(), "debug": set.debug, "meta": set.meta,
                                "x": x.iter().map(|v| hexf(*v)).collect::<Vec<_>>(), "extra": extra, "order": fr.order,
+                               "mpat": fr.mpat, "margs": (0..e).filter(|&i| fr.mpat[i] != 0).map(|i| i + 1).collect::<Vec<_>>(),
+                               "loopedges": loop_edges(&g), "kin": e <= 7,
                                "lat": lat.iter().map(|l| l.map(|p| p.0).unwrap_or(-1)).collect::<Vec<_>>()});
             writeln!(f, "{}", reset).unwrap();
             sm.events += 1 + fr.events.len() as u64;
@@ -318,7 +344,8 @@ pub fn replay(resets: &[Value], seed: u64, trace_path: &str) -> Summary {
         let lat: Vec<Option<(i64, i64)>> = match r.get("lat") { Some(l) if l.is_array() => arr(l).iter().map(|v| { let k = as_i64(v); if k >= 0 { Some((k, 1024)) } else { None } }).collect(), _ => vec![None; x.len()] };
         let set = Settings::new(if r["stab"].as_bool().unwrap_or(false) { Some(1e-6) } else { None }, r["debug"].as_bool().unwrap_or(false), r["meta"].as_bool().unwrap_or(true));
         let extra = r.get("extra").and_then(|v| v.as_u64()).unwrap_or(0) as usize;
-        let fr = trace_one(s.as_ref(), &g, &x, &lat, extra, &set, &mut rng);
+        let mp: Option<Vec<u8>> = r.get("mpat").and_then(|v| v.as_array()).map(|a| a.iter().map(|x| x.as_u64().unwrap_or(0) as u8).collect());
+        let fr = trace_one(s.as_ref(), &g, &x, &lat, extra, &set, &mut rng, mp.as_deref());
         let mut r = r.clone();
         r["order"] = json!(fr.order);
         writeln!(f, "{}", r).unwrap();
